@@ -8,8 +8,9 @@ Open Scope string_scope.
    class of the exception it raised *)
 Inductive real_out := RFiles (fs : list (string * string)) | RError (exc : string).
 
+(* c_funcs: the user functions of the pack in source order (name, body) *)
 Record case := mkCase {
-  c_nm : names; c_cfg : cfg; c_fname : string; c_prog : list stmt; c_real : real_out
+  c_nm : names; c_cfg : cfg; c_funcs : list (string * list stmt); c_real : real_out
 }.
 
 Definition err_str (e : error) : string :=
@@ -23,7 +24,7 @@ Definition err_str (e : error) : string :=
 Definition FUEL : nat := 400.
 
 Definition model_funcs (c : case) : result (list func) :=
-  compile_function FUEL (c_nm c) (c_cfg c) (c_fname c) (c_prog c).
+  compile_functions FUEL (c_nm c) (c_cfg c) (c_funcs c) cs0.
 
 Fixpoint sget (l : list (string * string)) (k : string) : option string :=
   match l with
